@@ -494,6 +494,12 @@ func (r *rewriter) rewriteFile(f *ast.File) bool {
 	if r.usedSched {
 		astutil.AddNamedImport(r.fset, f, "vsched", schedPath)
 	}
+	// imports orphaned by the time/rand rewrites
+	for _, path := range []string{"time", "math/rand", "math/rand/v2"} {
+		if !astutil.UsesImport(f, path) {
+			astutil.DeleteImport(r.fset, f, path)
+		}
+	}
 	return changed
 }
 
